@@ -2,8 +2,9 @@
 Props.C01 — "Every reported execution path is a real EVM behaviour" — for the core machine (Model.Sevm, stage 1 of
 DESIGN §"Shared by C01, C02, C09, C10": stack, word instructions, PUSH/DUP/SWAP, PC, JUMP/JUMPI, JUMPDEST, calldata and
 transaction-environment reads, memory (MLOAD/MSTORE/MSTORE8 at concrete offsets — a flat array of byte terms, which
-halmos' ByteVec refines: Props.C07), CALLDATACOPY / CODECOPY with concrete operands, STOP/INVALID, RETURN/REVERT with
-data; every other opcode ends the path as
+halmos' ByteVec refines: Props.C07), CALLDATACOPY / CODECOPY with concrete operands, SLOAD / SSTORE / TLOAD / TSTORE on literal slots below 2^64 of the
+executing account (non-symbolic, zero initial storage; hashed or symbolic slots end stuck), STOP/INVALID,
+RETURN/REVERT with data; every other opcode ends the path as
 *stuck*, which is an error report, never an outcome).
 
 All theorems hold for EVERY program (`code : List Nat`, any length), EVERY fuel / number of steps, EVERY engine
@@ -12,8 +13,9 @@ configuration (`--loop`, `--depth`), EVERY symbolic transaction environment `env
 functions (`I.Std`: the abstractions `f_evm_*` mean the exact EVM operation), EVERY concrete initial frame related to
 the initial symbolic state, and — for soundness — EVERY oracle `o` whatsoever: nothing is assumed of the solver.
 
-The reference is `Spec.Evm.step` / `Spec.Evm.exec`. halmos does not model the 1024-item stack limit: the case that the
-concrete run overflows it is kept as an explicit disjunct.
+The reference is `Spec.Evm.step` / `Spec.Evm.exec`. halmos does not model the 1024-item stack limit; the model adds
+it (`stepL`): a state with more than 1024 stack items ends in an end state tagged `stackLimit`, about which nothing is
+claimed (the code would go on).
 
 Known finding kept out of the statement by the tag: the end state `jumpi` produces when a JUMPI with a *symbolic*
 condition has an invalid destination (`Tag.jumpiInvalidSym`) claims the whole input set although the EVM falls through
@@ -40,59 +42,75 @@ theorem unknown_oracle_sound : OracleSound (fun _ _ => .unknown) := oracleSound_
 theorem jumpdest_byte {code : List Nat} {d : Nat} (h : (Evm.validJumpdests code).contains d = true) :
     (code[d]?).getD 0 = 0x5b := jumpdest_opcode h
 
-/-- **step_sound.** One dispatch step of `SEVM.run`, any opcode, any oracle: for a concrete frame `f` related to the
-    symbolic state `st` under a valuation `I` of its path (stack within the EVM limit),
-    * every successor whose path `I` satisfies is related to a frame the concrete machine reaches from `f`
-      (one `Evm.step`; two for a taken jump, which lands after the JUMPDEST);
-    * every untagged end state reporting the EVM outcome `h` has `Evm.step p w f = .halt w h`. -/
+/-- **step_sound.** One dispatch step of `SEVM.run`, any opcode, any oracle: for a concrete world `w` and frame `f`
+    related to the symbolic state `st` under a valuation `I` of its path (stack within the EVM limit; `hW`: the storage
+    maps of `st` describe `w` relative to the start world `w0`),
+    * every successor whose path `I` satisfies is related to a world and frame the concrete machine reaches from
+      `(w, f)` (one `Evm.step`; two for a taken jump, which lands after the JUMPDEST), its storage maps describing that
+      world;
+    * every untagged end state reporting the EVM outcome `h` has `Evm.step p w f = .halt w h` (with its data
+      evaluated), and carries the storage maps of `st`. -/
 theorem step_sound {I : Interp} {env : Env} {code : List Nat} {p : Evm.Params} {w : Evm.World} {s : Simp}
     {o : Oracle} {cfg : Cfg} {st : SState} {f : Evm.Frame} (hs : SimpSound s) (hI : I.Std)
     (hR : R I env code p st f) (hsat : Sat I st.path) (hl : f.stack.length ≤ 1024)
-    (hmem : cfg.maxMem + 32 ≤ p.memLimit) (hcode : ∀ b ∈ code, b < 256) :
+    (hmem : cfg.maxMem + 32 ≤ p.memLimit) (hcode : ∀ b ∈ code, b < 256)
+    {w0 : Evm.World} (hW : WRel I w0 w f.this st.storage st.transient) :
     (∀ st' ∈ (step s o cfg env code st).next, Sat I st'.path →
-        ∃ f', CReach p w f f' ∧ R I env code p st' f') ∧
+        ∃ w' f', CReach p (w, f) (w', f') ∧ R I env code p st' f' ∧
+          WRel I w0 w' f.this st'.storage st'.transient) ∧
     (∀ e ∈ (step s o cfg env code st).ends, e.tag = .normal → ∀ h, e.out = .halt h →
-        Evm.step p w f = .halt w (haltWith h (e.data.map (·.eval I)))) :=
-  Lemmas.Sevm.step_sound hs hI hR hsat hl hmem hcode
+        Evm.step p w f = .halt w (haltWith h (e.data.map (·.eval I))) ∧
+        e.st.storage = st.storage ∧ e.st.transient = st.transient) :=
+  Lemmas.Sevm.step_sound hs hI hR hsat hl hmem hcode hW
 
 /-! ### the property -/
 
+/-- the executing account starts with zero storage and transient storage (halmos' non-symbolic initial storage) -/
+def ZeroStorage (w : Evm.World) (this : Nat) : Prop :=
+  ∀ slot, Evm.lookupD w.storage (this, slot) = 0 ∧ Evm.lookupD w.transient (this, slot) = 0
+
 /-- **C01.sound.** Every untagged end state `e` of `run` that reports an EVM outcome of kind `h` (with return / revert
-    data `e.data`, a list of byte terms), and every valuation `I` satisfying its path conditions: the concrete machine,
-    started in any frame `f0` related to the initial state, reaches a frame at which `Evm.step` halts with exactly that
-    outcome — same kind, and the returned bytes are the values of `e.data` under `I` — and the world untouched; or its
-    stack overflows. `hmem`: the reference's memory limit (a modelling parameter on both sides) is at least as
-    permissive as halmos' `MAX_MEMORY_SIZE` for a 32-byte access; end states raised by halmos' limit checks are tagged. -/
+    data `e.data`, a list of byte terms, and the storage maps `e.st.storage`, `e.st.transient`: slot ↦ term), and every
+    valuation `I` satisfying its path conditions: the concrete machine, started in the world `w` and any frame `f0`
+    related to the initial state, reaches a world `w'` and a frame at which `Evm.step` halts with exactly that outcome
+    — same kind, and the returned bytes are the values of `e.data` under `I` — and `w'` is exactly what the storage
+    maps say (`WRel`): every slot of the executing account holds the value of the term last stored there, unwritten
+    slots keep their initial value (zero), nothing else of the world differs from `w`.
+    (The EVM's limit of 1024 stack items, which the code does not have, is the model's `stepL`: beyond it the path ends
+    with an end state tagged `stackLimit`.)
+    `hmem`: the reference's memory limit (a modelling parameter on both sides) is at least as permissive as halmos'
+    `MAX_MEMORY_SIZE` for a 32-byte access; end states raised by halmos' limit checks are tagged.
+    `hz`: the account's storage is zero at the start. Hashed / symbolic slots are outside the core (stuck). -/
 theorem sound {s : Simp} (hs : SimpSound s) (o : Oracle) (cfg : Cfg) (env : Env) (code : List Nat) (fuel : Nat)
     (p : Evm.Params) (w : Evm.World) (hmem : cfg.maxMem + 32 ≤ p.memLimit) (hcode : ∀ b ∈ code, b < 256)
     (e : EndState) (he : e ∈ (run s o cfg env code fuel).ends)
     (htag : e.tag = .normal) (h : Evm.Halt) (hout : e.out = .halt h) (I : Interp) (hI : I.Std) (f0 : Evm.Frame)
-    (hR0 : R I env code p initState f0) (hsat : Sat I e.st.path) :
-    (∃ f, CReach p w f0 f ∧ Evm.step p w f = .halt w (haltWith h (e.data.map (·.eval I)))) ∨
-    (∃ f, CReach p w f0 f ∧ f.stack.length > 1024) := by
+    (hR0 : R I env code p initState f0) (hz : ZeroStorage w f0.this) (hsat : Sat I e.st.path) :
+    ∃ w' f, CReach p (w, f0) (w', f) ∧ Evm.step p w' f = .halt w' (haltWith h (e.data.map (·.eval I))) ∧
+        WRel I w w' f0.this e.st.storage e.st.transient := by
   have hgood := explore_sound (o := o) (cfg := cfg) (env := env) (code := code) (p := p) (w := w) hs hmem hcode fuel 0
     [initState] {} (by
       intro st hm
       rw [List.mem_singleton] at hm
       subst hm; exact goodState_init)
     (by intro e hm; cases hm)
-  exact hgood e he htag h hout I hI f0 hR0 hsat
+  exact hgood e he htag h hout I hI f0 hR0 (WRel.init hz) hsat
 
-/-- **C01.sound, as a terminating run.** The reported outcome is the result of `Evm.exec` on the whole program
-    (for some amount of fuel — the statement bounds nothing), unless the concrete run dies of stack overflow. -/
+/-- **C01.sound, as a terminating run.** The reported outcome, in the world the storage maps describe, is the result of
+    `Evm.exec` on the whole program (for some amount of fuel — the statement bounds nothing). -/
 theorem sound_exec {s : Simp} (hs : SimpSound s) (o : Oracle) (cfg : Cfg) (env : Env) (code : List Nat) (fuel : Nat)
     (p : Evm.Params) (w : Evm.World) (hmem : cfg.maxMem + 32 ≤ p.memLimit) (hcode : ∀ b ∈ code, b < 256)
     (e : EndState) (he : e ∈ (run s o cfg env code fuel).ends)
     (htag : e.tag = .normal) (h : Evm.Halt) (hout : e.out = .halt h) (I : Interp) (hI : I.Std) (f0 : Evm.Frame)
-    (hR0 : R I env code p initState f0) (hsat : Sat I e.st.path) :
-    (∃ n, Evm.exec p n w f0 = some (w, haltWith h (e.data.map (·.eval I)))) ∨
-    (∃ n, Evm.exec p n w f0 = some (w, .stackOverflow)) := by
-  rcases sound hs o cfg env code fuel p w hmem hcode e he htag h hout I hI f0 hR0 hsat with ⟨f, hr, hstep⟩ | ⟨f, hr, hov⟩
-  · exact Or.inl (exec_of_reach hr hstep)
-  · exact Or.inr (exec_of_reach hr (evm_overflow hov))
+    (hR0 : R I env code p initState f0) (hz : ZeroStorage w f0.this) (hsat : Sat I e.st.path) :
+    ∃ n w', Evm.exec p n w f0 = some (w', haltWith h (e.data.map (·.eval I))) ∧
+        WRel I w w' f0.this e.st.storage e.st.transient := by
+  obtain ⟨w', f, hr, hstep, hW⟩ := sound hs o cfg env code fuel p w hmem hcode e he htag h hout I hI f0 hR0 hz hsat
+  obtain ⟨n, hn⟩ := exec_of_reach hr hstep
+  exact ⟨n, w', hn, hW⟩
 
 /-- the initial state of `run` -/
-example : initState = ⟨0, [], [], [], [], []⟩ := rfl
+example : initState = ⟨0, [], [], [], [], [], [], [], []⟩ := rfl
 
 /-! ### non-vacuity: a branching program, a concrete oracle, an instance of `R` -/
 
@@ -122,8 +140,12 @@ theorem exI_std : exI.Std := Interp.std_isStd _ _ _ _
 def exP : Evm.Params := { origin := 0, memLimit := 2 ^ 20 + 32 }
 
 theorem exMem : ({} : Cfg).maxMem + 32 ≤ exP.memLimit := by decide
+
 def exW : Evm.World := { code := [], storage := [], transient := [], balance := [] }
 def exF0 : Evm.Frame := { this := 0x1000, caller := 0xabc, value := 0, calldata := exCalldata, code := exCode }
+
+/-- the example world has no storage at all -/
+theorem exZero (this : Nat) : ZeroStorage exW this := fun _ => ⟨rfl, rfl⟩
 
 /-- an oracle that never answers (every query `unknown`): sound, and the worst case for exploration -/
 def exOracle : Oracle := fun _ _ => .unknown
@@ -139,8 +161,8 @@ example : exRes.ends.map (fun e => (e.st.pc, e.out, e.tag, e.st.path)) =
 
 /-- the simulation relation holds between the initial symbolic state and the concrete initial frame -/
 theorem exR : R exI exEnv exCode exP initState exF0 := by
-  refine ⟨rfl, rfl, StackRel.nil, ⟨?_, ?_, ?_, ?_, ?_, ?_, rfl⟩,
-    ⟨fun _ h => absurd h List.not_mem_nil, fun _ _ h => absurd h List.not_mem_nil⟩, MemRel.nil _⟩
+  refine ⟨rfl, rfl, StackRel.nil, ⟨?_, ?_, ?_, ?_, ?_, ?_, rfl, rfl⟩,
+    ⟨fun _ h => absurd h List.not_mem_nil, fun _ _ h => absurd h List.not_mem_nil⟩, MemRel.nil _, MemRel.nil _⟩
   · exact ⟨(by decide : 0 < 160), (by decide : 160 ≤ 256), by decide +kernel⟩
   · exact ⟨(by decide : 0 < 160), (by decide : 160 ≤ 256), by decide +kernel⟩
   · exact ⟨(by decide : 0 < 256), (by decide : 256 ≤ 256), by decide +kernel⟩
@@ -168,18 +190,17 @@ theorem exR : R exI exEnv exCode exP initState exF0 := by
 
 /-- the INVALID end state is among the results -/
 theorem ex_end : ∃ e ∈ exRes.ends, e.tag = .normal ∧ e.out = .halt .invalidOpcode ∧
-    e.st.path = [.cmp .eq (.var "x" 256) (.lit 256 42)] := by
+    e.st.path = [.cmp .eq (.var "x" 256) (.lit 256 42)] ∧ e.st.storage = [] ∧ e.st.transient = [] := by
   decide +kernel
 
 /-- `sound_exec` applied to the INVALID end state and the valuation `x ↦ 42`: all hypotheses are met, and the
     conclusion is the concrete fact that the reference EVM ends in `invalidOpcode` on calldata `12345678 ‖ 42` -/
-example : (∃ n, Evm.exec exP n exW exF0 = some (exW, .invalidOpcode)) ∨
-    (∃ n, Evm.exec exP n exW exF0 = some (exW, .stackOverflow)) := by
-  obtain ⟨e, he, htag, hout, hp⟩ := ex_end
-  refine sound_exec foldSimp_sound exOracle {} exEnv exCode 100 exP exW exMem (by decide) e he htag .invalidOpcode hout exI
-    exI_std exF0 exR ?_
-  rw [hp]
-  exact sat_singleton.2 (by decide +kernel)
+example : ∃ n w', Evm.exec exP n exW exF0 = some (w', .invalidOpcode) ∧ WRel exI exW w' exF0.this [] [] := by
+  obtain ⟨e, he, htag, hout, hp, hsto, htr⟩ := ex_end
+  have := sound_exec foldSimp_sound exOracle {} exEnv exCode 100 exP exW exMem (by decide) e he htag .invalidOpcode hout
+    exI exI_std exF0 exR (exZero _) (by rw [hp]; exact sat_singleton.2 (by decide +kernel))
+  rw [hsto, htr] at this
+  exact this
 
 /-- and the reference interpreter indeed says so (it is the first disjunct that holds) -/
 example : (Evm.exec exP 10 exW exF0).map (·.2) = some .invalidOpcode := by decide +kernel
@@ -197,18 +218,18 @@ theorem ret_end : ∃ e ∈ (run foldSimp exOracle {} exEnv retCode 100).ends, e
   decide +kernel
 
 /-- `sound_exec` on it, for the valuation `x ↦ 42`: the reference EVM returns 31 zero bytes, 42, 0xAB -/
-example : (∃ n, Evm.exec exP n exW { exF0 with code := retCode } =
-      some (exW, .success (List.replicate 31 0 ++ [42, 0xab]))) ∨
-    (∃ n, Evm.exec exP n exW { exF0 with code := retCode } = some (exW, .stackOverflow)) := by
+example : ∃ n w', Evm.exec exP n exW { exF0 with code := retCode } =
+      some (w', .success (List.replicate 31 0 ++ [42, 0xab])) := by
   obtain ⟨e, he, htag, hout, hp, hd⟩ := ret_end
   have hR : R exI exEnv retCode exP initState { exF0 with code := retCode } :=
-    ⟨rfl, rfl, StackRel.nil, exR.env.congr rfl rfl rfl rfl, exR.subst, MemRel.nil _⟩
+    ⟨rfl, rfl, StackRel.nil, exR.env.congr rfl rfl rfl rfl rfl, exR.subst, MemRel.nil _, MemRel.nil _⟩
   have := sound_exec foldSimp_sound exOracle {} exEnv retCode 100 exP exW exMem (by decide) e he htag (.success []) hout exI
-    exI_std _ hR (by rw [hp]; exact Sat.nil _)
+    exI_std _ hR (exZero _) (by rw [hp]; exact Sat.nil _)
   have hv : haltWith (.success []) (e.data.map (·.eval exI)) = .success (List.replicate 31 0 ++ [42, 0xab]) := by
     rw [hd]; decide +kernel
   rw [hv] at this
-  exact this
+  obtain ⟨n, w', h1, _⟩ := this
+  exact ⟨n, w', h1⟩
 
 example : (Evm.exec exP 20 exW { exF0 with code := retCode }).map (·.2) =
     some (.success (List.replicate 31 0 ++ [42, 0xab])) := by decide +kernel
@@ -222,6 +243,58 @@ example : (run foldSimp exOracle {} exEnv cpCode 100).ends.map (fun e => (e.out,
       [(.halt (.success []), .normal, exCalldata ++ [0x60, 36, 0x60, 0])] ∧
     (Evm.exec exP 20 exW { exF0 with code := cpCode }).map (·.2) =
       some (.success (exCalldata ++ [0x60, 36, 0x60, 0])) := by
+  decide +kernel
+
+/-! storage -/
+
+/-- `sstore(1, x); tstore(2, sload(1) + 1); return mem[0..32) = tload(2)`:
+    `PUSH1 4; CALLDATALOAD; PUSH1 1; SSTORE; PUSH1 1; PUSH1 1; SLOAD; ADD; PUSH1 2; TSTORE; PUSH1 2; TLOAD; PUSH1 0;
+     MSTORE; PUSH1 32; PUSH1 0; RETURN` -/
+def stoCode : List Nat :=
+  [0x60, 4, 0x35, 0x60, 1, 0x55, 0x60, 1, 0x60, 1, 0x54, 0x01, 0x60, 2, 0x5d, 0x60, 2, 0x5c, 0x60, 0, 0x52,
+   0x60, 32, 0x60, 0, 0xf3]
+
+/-- the model's end state carries the storage maps `1 ↦ x` and (transient) `2 ↦ x + 1` -/
+theorem sto_end : ∃ e ∈ (run foldSimp exOracle {} exEnv stoCode 100).ends, e.tag = .normal ∧
+    e.out = .halt (.success []) ∧ e.st.path = [] ∧ e.st.storage = [(1, .var "x" 256)] ∧
+    e.st.transient = [(2, .bin .add (.var "x" 256) (.lit 256 1))] := by
+  decide +kernel
+
+/-- `sound_exec` on it for `x ↦ 42`: in the world the reference EVM ends in, slot 1 of the account holds 42, transient
+    slot 2 holds 43, every other slot is still zero, and the run returns 43 -/
+example : ∃ n w', Evm.exec exP n exW { exF0 with code := stoCode } =
+        some (w', .success (List.replicate 31 0 ++ [43])) ∧
+      Evm.lookupD w'.storage (0x1000, 1) = 42 ∧ Evm.lookupD w'.transient (0x1000, 2) = 43 ∧
+      Evm.lookupD w'.storage (0x1000, 7) = 0 := by
+  obtain ⟨e, he, htag, hout, hp, hsto, htr⟩ := sto_end
+  have hR : R exI exEnv stoCode exP initState { exF0 with code := stoCode } :=
+    ⟨rfl, rfl, StackRel.nil, exR.env.congr rfl rfl rfl rfl rfl, exR.subst, MemRel.nil _, MemRel.nil _⟩
+  obtain ⟨n, w', h1, hW⟩ := sound_exec foldSimp_sound exOracle {} exEnv stoCode 100 exP exW exMem (by decide) e he htag
+      (.success []) hout exI exI_std _ hR (exZero _) (by rw [hp]; exact Sat.nil _)
+  · refine ⟨n, w', ?_, ?_, ?_, ?_⟩
+    · have hv : haltWith (.success []) (e.data.map (·.eval exI)) = .success (List.replicate 31 0 ++ [43]) := by
+        have hd : e.data.map (·.eval exI) = List.replicate 31 0 ++ [43] := by
+          have : ∀ e' ∈ (run foldSimp exOracle {} exEnv stoCode 100).ends,
+              e'.data.map (·.eval exI) = List.replicate 31 0 ++ [43] := by decide +kernel
+          exact this e he
+        rw [hd]; rfl
+      rw [← hv]; exact h1
+    · rw [hsto, htr] at hW
+      exact (hW.hsto 1).trans (by decide +kernel)
+    · rw [hsto, htr] at hW
+      exact (hW.htr 2).trans (by decide +kernel)
+    · rw [hsto, htr] at hW
+      exact (hW.hsto 7).trans (by decide +kernel)
+
+/-- and the reference interpreter agrees directly -/
+example : (Evm.exec exP 30 exW { exF0 with code := stoCode }).map
+      (fun r => (r.2, Evm.lookupD r.1.storage (0x1000, 1), Evm.lookupD r.1.transient (0x1000, 2))) =
+    some (.success (List.replicate 31 0 ++ [43]), 42, 43) := by decide +kernel
+
+/-- in a static frame SSTORE ends the path with WriteInStaticContext, on both sides -/
+example : (run foldSimp exOracle {} { exEnv with isStatic := true } stoCode 100).ends.map (fun e => (e.st.pc, e.out, e.tag)) =
+      [(5, .halt .writeInStatic, .normal)] ∧
+    (Evm.exec exP 30 exW { exF0 with code := stoCode, isStatic := true }).map (·.2) = some .writeInStatic := by
   decide +kernel
 
 /-- a write beyond `MAX_MEMORY_SIZE` ends the path with the tagged OutOfGas (`PUSH1 0; PUSH3 0x100001; MSTORE`) -/
